@@ -664,6 +664,18 @@ nni_aio_set_iov(nni_aio *aio, unsigned nio, const nni_iov *iov)
 /* The iov arithmetic below is the *specification* (consume n bytes from the
  * front of the vector); C01's iov harness proves the real
  * nni_aio_iov_advance / nni_aio_iov_count equivalent to it. */
+/* as core/aio.c: keeps the running byte count of one system call within INT_MAX */
+bool
+nni_aio_iov_clamp_len(size_t *len, size_t *count)
+{
+	size_t headroom = (size_t) 0x7fffffff - *count;
+	bool   clamped  = *len > headroom;
+	if (clamped) {
+		*len = headroom;
+	}
+	*count += *len;
+	return clamped;
+}
 size_t
 nni_aio_iov_count(nni_aio *aio)
 {
